@@ -401,6 +401,15 @@ def run(ctx):
         for off in itertools.product(OFF, repeat=1):
             for d in ([1, 1], [0, 0], [0.9, 0.9], [2, 0]):
                 specs.append({"k": "pp", "diag": d, "off": list(off)})
+        # spectra of every sign pattern: negative-definite, negative-semidefinite, 1x1, mixed (the "matrix of kernel values" clause holds for any symmetric input)
+        for d1 in (-0.3, 0.0, 0.7):
+            specs.append({"k": "pp", "diag": [d1], "off": []})
+        for d in itertools.product([-1.0, -0.3, 0.0, 1.0], repeat=2):
+            for off in itertools.product(OFF, repeat=1):
+                specs.append({"k": "pp", "diag": list(d), "off": list(off)})
+        for d in ([-1, -1, -1], [-2, -1, -0.5], [-1, 0, 1], [0, 0, 0], [-3, -3, 0]):
+            for off in itertools.product(OFF, repeat=3):
+                specs.append({"k": "pp", "diag": d, "off": list(off)})
         off4 = [-1.0, 0.0, 1.0] if q else OFF
         for off in itertools.product(off4, repeat=6):
             specs.append({"k": "pp", "diag": [1, 1, 1, 1], "off": list(off)})
